@@ -224,6 +224,11 @@ class RebuildCheck:
                                    "P": P, "shape": sh, "alpha": alpha,
                                    "first": g["first"], "seed": seed,
                                    "tier": tier})
+        # long single files (block / piece counts beyond 2^8 .. 2^10)
+        for P in (2, 1024):
+            gs.append({"kind": "world", "scale": "S", "B": 2, "P": P,
+                       "shape": "S1", "alpha": [514, 515, 1026, 2050],
+                       "first": None, "seed": seed, "tier": tier})
         for P in ([32768] if quick else [16384, 32768]):
             for sh in ["S1", "D1", "D2n", "D3s", "D3x", "D3n"] + (
                     [] if quick else ["D3", "D4"]):
